@@ -29,7 +29,9 @@ def guard():
         yield
         return
     old = signal.signal(signal.SIGALRM, _handler)
-    signal.setitimer(signal.ITIMER_REAL, LIMIT_S)
+    # (repeating: when the spinning code is on this very thread - asyncio world - it may swallow
+    # the exception and spin on)
+    signal.setitimer(signal.ITIMER_REAL, LIMIT_S, 5.0)
     try:
         yield
     finally:
@@ -54,3 +56,16 @@ def arm(limit_s=None):
 def disarm():
     if _installed[0] and threading.current_thread() is threading.main_thread():
         signal.setitimer(signal.ITIMER_REAL, 0)
+
+
+def run_case(body, make_violation):
+    """Run body(); a trip of the watchdog during it - also one the library swallowed - becomes
+    the violation make_violation(message)."""
+    before = STATE['tripped']
+    try:
+        body()
+    except BusyLoop as e:
+        raise make_violation(str(e))
+    if STATE['tripped'] and not before:
+        raise make_violation('the watchdog fired during this case (library code was spinning; '
+                             'the exception was absorbed by the library)')
